@@ -48,6 +48,9 @@ CHECKS = {
  "C20": dict(cat="exploration", tech="exhaustive enumeration of reference strings (all strings up to length 8/9 over the 9 grammar characters, all token sequences up to 5/6, slot products, all single edits of seeds) against a hand-written scanner, plus recorded-URL shape checks",
    text="Every string is judged by an independent scanner of the documented grammar (accept/reject/not judged); accepted references must split, round-trip and resolve identically through Repository.ParseReference on four bases; every request URL an accepted reference produces is checked for the exact /v2/<repository>/<kind>/<reference> shape.",
    note="Strings ending in ':'/'@' and authorities only net/url can adjudicate are counted, not judged (as the property states)."),
+ "C16": dict(cat="model_checking", tech="explicit request-sequence enumeration of the real auth.Client against an in-process two-registry/two-realm world with a secret-scanning innermost transport; delay-bounded schedule enumeration for concurrent requests (token-fetch sharing and hand-over)",
+   text="Every request sequence up to length 3/4 x pair of per-registry auth modes x cache flavour x scheme change x challenge-scope rendering is run through the real client; the innermost transport scans every outgoing request for the other registry's secrets, counts sends and token fetches; 2-3 concurrent requests through one cache are explored under every schedule within the bound, including a first caller cancelled during the token fetch; CleanScopes is compared with an independent canonicaliser on every list of <= 3 scopes.",
+   note="NewSingleContextCache is judged only on host and scheme (its documented contract)."),
 }
 
 checks, na = [], []
